@@ -1,5 +1,6 @@
 """C17 — a MOC written from a map covers exactly the map's valid pixels."""
 import gen
+import translate_kernels
 
 PID = 'C17'
 RULE = ("maps of any kind with a non-empty valid set (sparse scatter; full and nearly-full blocks at every hierarchy "
@@ -105,3 +106,12 @@ def histories(rng, tier):
 
 def nontrivial(h):
     return any(ln.startswith('moc ') for ln in h)
+
+
+def translate():
+    """regenerate Generated/Kernels.lean from /repo (obligations: Props/C17Kernels.lean)"""
+    return translate_kernels.translate()
+
+
+def kernel_failing_rows():
+    return translate_kernels.failing_rows(PID)
